@@ -11,8 +11,8 @@ import vlib, femgen, femmrun
 from femgen import Builder, mesh_diameter
 
 # axisymmetric magnetics assembly models AsmMAxi.v / AsmMHAxi.v (tied to the code by props/xaxi.py, also run here)
-EXTENSIONS = ["xaxi"]
-EXTRA_PROPERTY_FILES = ["C11_axi"]
+EXTENSIONS = ["xaxi", "xprev"]
+EXTRA_PROPERTY_FILES = ["C11_axi", "C05_prev"]
 LEVEL = "proof"
 COQ_MODULES = []
 ASSUMPTIONS = [
